@@ -62,11 +62,11 @@ def judge_cid(case, part):
     part.nontrivial += 1
     signatures = {}
     for storage in STORAGES:
-        variants = [None] if storage != "ods" else [None, {"col_runs": True, "empty_as_p": True}, {"annotations": True}]
+        variants = [None] if storage != "ods" else [None, {"col_runs": True, "empty_as_p": True}, {"annotations": True}, {"span_range": [0, 40], "link": True}]
         for features in variants:
             outcome, cid = load(store_rows(rows, storage, "cid", features))
             part.transitions += 1
-            key = storage if features is None else storage + ("+comments" if features.get("annotations") else "+runs")
+            key = storage if features is None else storage + ("+comments" if features.get("annotations") else ("+links" if features.get("link") else "+runs"))
             signatures[key] = c09.signature(cid) if cid is not None else outcome
         # the same file under a name whose suffix is written in capitals or mixed case
         outcome, cid = load(store_rows(rows, storage, "CID", None, suffix={"csv": "CSV", "ods": "ODS", "xlsx": "Xlsx"}[storage]))
@@ -121,7 +121,7 @@ def judge_table(case, part):
     for data_format in FORMATS:
         rows, decls = cid_rows_for(fields, data_format, sheet, header)
         config = {"preset": data_format, "header": header, "fields": fields, "sheet": sheet if data_format != "delimited" else 1,
-                  "odf": {"span_range": [1, 6], "span_nested": bool(sheet % 2), "col_runs": True, "paragraphs": True, "annotations": case.get("number", 0) % 3 == 0}}  # ODS data: part of every longer cell inside inline elements, runs of equal cells stored once, one paragraph per line of a cell
+                  "odf": {"span_range": [1, 6], "span_nested": bool(sheet % 2), "col_runs": True, "paragraphs": True, "annotations": case.get("number", 0) % 3 == 0, "link": case.get("number", 0) % 2 == 1}}  # ODS data: part of every longer cell inside inline elements, runs of equal cells stored once, one paragraph per line of a cell
         for storage in STORAGES:
             outcome, cid = load(store_rows(rows, storage, "tcid"))
             part.transitions += 2
